@@ -1,11 +1,1160 @@
-//! C05 -- not built yet (stub so the crate layout is stable).
-use crate::engine::report::{Ctx, Report};
-use serde_json::Value;
+//! C05 -- encoded commands mean exactly what was commanded to a VT/xterm interpreter.
+//!
+//! Complete sweeps of `TTYEncoder::encode` over every `TerminalCommand` variant x parameter
+//! lattices x {TrueColor, EightBit, Gray} x kitty_keyboard x glyphs. The emitted bytes are
+//! parsed by the independent ECMA-48/xterm interpreter of `model::ecma48` and compared with
+//! the command's denotation (written here, from the command's documentation and the VT/xterm
+//! meaning of the operation): exact parameters, no stray bytes, no panic. Face changes are
+//! compared semantically: the SGR parameters are applied by the reference SGR machine to
+//! three different start renditions and the result must be exactly the requested one.
+//! All ordered pairs of representative commands are encoded into one stream by one encoder
+//! and must parse into the concatenation of the two operation lists.
+use crate::engine::catch;
+use crate::engine::report::{Ctx, Report, Samples, Tier, Violations};
+use crate::engine::util::esc;
+use crate::model::ecma48::{self, Colour, Op, Rendition, Token, Underline};
+use rayon::prelude::*;
+use serde::{Deserialize, Serialize};
+use serde_json::{json, Value};
+use std::sync::atomic::{AtomicU64, Ordering};
+use std::sync::Arc;
+use surf_n_term::encoder::{ColorDepth, Encoder, TTYEncoder};
+use surf_n_term::{
+    DecMode, Face, FaceAttrs, FaceModify, Image, Position, Shape, TerminalCaps, TerminalColor,
+    TerminalCommand, UnderlineStyle, RGBA,
+};
 
-pub fn run(_ctx: &Ctx) -> Result<Report, String> {
-    Err("C05: check not built yet".into())
+// ---------------------------------------------------------------------------------------
+// command descriptions (serialisable, so that a witness can be replayed)
+// ---------------------------------------------------------------------------------------
+
+type Rgb = [u8; 3];
+
+#[derive(Debug, Clone, PartialEq, Serialize, Deserialize)]
+enum Spec {
+    Char(u32),
+    /// flags: bit0 bold, bit1 italic, bit2 blink, bit3 reverse, bit4 strike; ul: 0 none .. 5 dashed
+    Face {
+        #[serde(default, skip_serializing_if = "Option::is_none")]
+        fg: Option<Rgb>,
+        #[serde(default, skip_serializing_if = "Option::is_none")]
+        bg: Option<Rgb>,
+        flags: u8,
+        ul: u8,
+    },
+    FaceModify {
+        reset: bool,
+        #[serde(default, skip_serializing_if = "Option::is_none")]
+        fg: Option<Rgb>,
+        #[serde(default, skip_serializing_if = "Option::is_none")]
+        bg: Option<Rgb>,
+        #[serde(default, skip_serializing_if = "Option::is_none")]
+        ul: Option<u8>,
+        #[serde(default, skip_serializing_if = "Option::is_none")]
+        ulc: Option<Rgb>,
+        #[serde(default, skip_serializing_if = "Option::is_none")]
+        bold: Option<bool>,
+        #[serde(default, skip_serializing_if = "Option::is_none")]
+        italic: Option<bool>,
+        #[serde(default, skip_serializing_if = "Option::is_none")]
+        blink: Option<bool>,
+        #[serde(default, skip_serializing_if = "Option::is_none")]
+        strike: Option<bool>,
+    },
+    FaceGet,
+    /// mode: index into MODES
+    DecModeSet { enable: bool, mode: usize },
+    DecModeGet(usize),
+    CursorGet,
+    CursorTo { row: u64, col: u64 },
+    CursorMove { row: i32, col: i32 },
+    CursorSave,
+    CursorRestore,
+    EraseLineLeft,
+    EraseLineRight,
+    EraseLine,
+    EraseScreen,
+    EraseChars(u64),
+    Scroll(i32),
+    ScrollRegion { start: u64, end: u64 },
+    Reset,
+    Image,
+    ImageErase(bool),
+    Termcap(Vec<String>),
+    /// name: -1 background, -2 foreground, n >= 0 palette entry n
+    Color { name: i64, color: Option<Rgb> },
+    Title(String),
+    DeviceAttrs,
+    KeyboardLevel(u64),
+    Raw(Vec<u8>),
 }
 
-pub fn replay(_w: &Value) -> Result<(bool, String), String> {
-    Err("C05: check not built yet".into())
+/// DEC private modes: the library's variant and the number xterm ctlseqs / the linked
+/// specifications give it.
+const MODES: [(&str, DecMode, u64); 9] = [
+    ("VisibleCursor", DecMode::VisibleCursor, 25),
+    ("AutoWrap", DecMode::AutoWrap, 7),
+    ("SixelScrolling", DecMode::SixelScrolling, 80),
+    ("MouseReport", DecMode::MouseReport, 1000),
+    ("MouseMotions", DecMode::MouseMotions, 1003),
+    ("MouseSGR", DecMode::MouseSGR, 1006),
+    ("AltScreen", DecMode::AltScreen, 1049),
+    ("SynchronizedOutput", DecMode::SynchronizedOutput, 2026),
+    ("BracketedPaste", DecMode::BracketedPaste, 2004),
+];
+const ALT_SCREEN: usize = 6;
+/// Keyboard level the library pushes when it enters the alternate screen
+/// (`decoder::KEYBOARD_LEVEL`, crate private; a configuration constant, not computed behaviour):
+/// 0b0101 = disambiguate escape codes | report alternate keys.
+const ALT_SCREEN_KEYBOARD_LEVEL: u64 = 0b0101;
+
+#[derive(Debug, Clone, Copy, PartialEq, Serialize, Deserialize)]
+struct Cfg {
+    /// 0 TrueColor, 1 EightBit, 2 Gray
+    depth: u8,
+    kitty: bool,
+    glyphs: bool,
+}
+
+impl Cfg {
+    fn all() -> Vec<Cfg> {
+        let mut v = vec![];
+        for depth in 0..3 {
+            for kitty in [false, true] {
+                for glyphs in [false, true] {
+                    v.push(Cfg { depth, kitty, glyphs });
+                }
+            }
+        }
+        v
+    }
+    fn caps(&self) -> TerminalCaps {
+        TerminalCaps {
+            depth: match self.depth {
+                0 => ColorDepth::TrueColor,
+                1 => ColorDepth::EightBit,
+                _ => ColorDepth::Gray,
+            },
+            glyphs: self.glyphs,
+            kitty_keyboard: self.kitty,
+        }
+    }
+}
+
+fn rgba(c: Rgb) -> RGBA {
+    RGBA::new(c[0], c[1], c[2], 255)
+}
+
+fn ul_style(n: u8) -> UnderlineStyle {
+    match n {
+        1 => UnderlineStyle::Straight,
+        2 => UnderlineStyle::Double,
+        3 => UnderlineStyle::Curly,
+        4 => UnderlineStyle::Dotted,
+        5 => UnderlineStyle::Dashed,
+        _ => UnderlineStyle::None,
+    }
+}
+
+fn ul_model(n: u8) -> Underline {
+    match n {
+        1 => Underline::Single,
+        2 => Underline::Double,
+        3 => Underline::Curly,
+        4 => Underline::Dotted,
+        5 => Underline::Dashed,
+        _ => Underline::None,
+    }
+}
+
+fn attrs(flags: u8, ul: u8) -> FaceAttrs {
+    let mut a: FaceAttrs = ul_style(ul).into();
+    for (bit, f) in [
+        (1, FaceAttrs::BOLD),
+        (2, FaceAttrs::ITALIC),
+        (4, FaceAttrs::BLINK),
+        (8, FaceAttrs::REVERSE),
+        (16, FaceAttrs::STRIKE),
+    ] {
+        if flags & bit != 0 {
+            a = a.insert(f);
+        }
+    }
+    a
+}
+
+fn tiny_image() -> Image {
+    let data: Arc<[RGBA]> = Arc::from(vec![RGBA::new(1, 2, 3, 255)]);
+    Image::from_parts(data, Shape { start: 0, end: 1, width: 1, height: 1, row_stride: 1, col_stride: 1 })
+}
+
+impl Spec {
+    fn name(&self) -> &'static str {
+        match self {
+            Spec::Char(_) => "Char",
+            Spec::Face { .. } => "Face",
+            Spec::FaceModify { .. } => "FaceModify",
+            Spec::FaceGet => "FaceGet",
+            Spec::DecModeSet { .. } => "DecModeSet",
+            Spec::DecModeGet(_) => "DecModeGet",
+            Spec::CursorGet => "CursorGet",
+            Spec::CursorTo { .. } => "CursorTo",
+            Spec::CursorMove { .. } => "CursorMove",
+            Spec::CursorSave => "CursorSave",
+            Spec::CursorRestore => "CursorRestore",
+            Spec::EraseLineLeft => "EraseLineLeft",
+            Spec::EraseLineRight => "EraseLineRight",
+            Spec::EraseLine => "EraseLine",
+            Spec::EraseScreen => "EraseScreen",
+            Spec::EraseChars(_) => "EraseChars",
+            Spec::Scroll(_) => "Scroll",
+            Spec::ScrollRegion { .. } => "ScrollRegion",
+            Spec::Reset => "Reset",
+            Spec::Image => "Image",
+            Spec::ImageErase(_) => "ImageErase",
+            Spec::Termcap(_) => "Termcap",
+            Spec::Color { .. } => "Color",
+            Spec::Title(_) => "Title",
+            Spec::DeviceAttrs => "DeviceAttrs",
+            Spec::KeyboardLevel(_) => "KeyboardLevel",
+            Spec::Raw(_) => "Raw",
+        }
+    }
+
+    /// commands whose output depends on a parameter value
+    fn parametric(&self) -> bool {
+        !matches!(
+            self,
+            Spec::FaceGet
+                | Spec::CursorGet
+                | Spec::CursorSave
+                | Spec::CursorRestore
+                | Spec::EraseLineLeft
+                | Spec::EraseLineRight
+                | Spec::EraseLine
+                | Spec::EraseScreen
+                | Spec::Reset
+                | Spec::Image
+                | Spec::ImageErase(_)
+                | Spec::DeviceAttrs
+        )
+    }
+
+    fn command(&self) -> TerminalCommand {
+        match self.clone() {
+            Spec::Char(c) => TerminalCommand::Char(char::from_u32(c).unwrap_or('?')),
+            Spec::Face { fg, bg, flags, ul } => {
+                TerminalCommand::Face(Face::new(fg.map(rgba), bg.map(rgba), attrs(flags, ul)))
+            }
+            Spec::FaceModify { reset, fg, bg, ul, ulc, bold, italic, blink, strike } => {
+                TerminalCommand::FaceModify(FaceModify {
+                    reset,
+                    fg: fg.map(rgba),
+                    bg: bg.map(rgba),
+                    underline: ul.map(ul_style),
+                    underline_color: ulc.map(rgba),
+                    bold,
+                    italic,
+                    blink,
+                    strike,
+                })
+            }
+            Spec::FaceGet => TerminalCommand::FaceGet,
+            Spec::DecModeSet { enable, mode } => TerminalCommand::DecModeSet { enable, mode: MODES[mode].1 },
+            Spec::DecModeGet(mode) => TerminalCommand::DecModeGet(MODES[mode].1),
+            Spec::CursorGet => TerminalCommand::CursorGet,
+            Spec::CursorTo { row, col } => TerminalCommand::CursorTo(Position::new(row as usize, col as usize)),
+            Spec::CursorMove { row, col } => TerminalCommand::CursorMove { row, col },
+            Spec::CursorSave => TerminalCommand::CursorSave,
+            Spec::CursorRestore => TerminalCommand::CursorRestore,
+            Spec::EraseLineLeft => TerminalCommand::EraseLineLeft,
+            Spec::EraseLineRight => TerminalCommand::EraseLineRight,
+            Spec::EraseLine => TerminalCommand::EraseLine,
+            Spec::EraseScreen => TerminalCommand::EraseScreen,
+            Spec::EraseChars(n) => TerminalCommand::EraseChars(n as usize),
+            Spec::Scroll(n) => TerminalCommand::Scroll(n),
+            Spec::ScrollRegion { start, end } => {
+                TerminalCommand::ScrollRegion { start: start as usize, end: end as usize }
+            }
+            Spec::Reset => TerminalCommand::Reset,
+            Spec::Image => TerminalCommand::Image(tiny_image(), Position::new(1, 2)),
+            Spec::ImageErase(with_pos) => {
+                TerminalCommand::ImageErase(tiny_image(), with_pos.then(|| Position::new(1, 2)))
+            }
+            Spec::Termcap(names) => TerminalCommand::Termcap(names),
+            Spec::Color { name, color } => TerminalCommand::Color {
+                name: match name {
+                    -1 => TerminalColor::Background,
+                    -2 => TerminalColor::Foreground,
+                    n => TerminalColor::Palette(n as usize),
+                },
+                color: color.map(rgba),
+            },
+            Spec::Title(t) => TerminalCommand::Title(t),
+            Spec::DeviceAttrs => TerminalCommand::DeviceAttrs,
+            Spec::KeyboardLevel(n) => TerminalCommand::KeyboardLevel(n as usize),
+            Spec::Raw(d) => TerminalCommand::Raw(d),
+        }
+    }
+}
+
+// ---------------------------------------------------------------------------------------
+// denotation
+// ---------------------------------------------------------------------------------------
+
+/// The three renditions a face change is applied to: everything off, everything on, mixed.
+fn starts() -> [Rendition; 3] {
+    [
+        Rendition::default(),
+        Rendition {
+            fg: Colour::Rgb(9, 8, 7),
+            bg: Colour::Index(3),
+            underline_colour: Colour::Rgb(1, 2, 3),
+            bold: true,
+            italic: true,
+            blink: true,
+            reverse: true,
+            strike: true,
+            underline: Underline::Curly,
+        },
+        Rendition {
+            fg: Colour::Index(200),
+            bg: Colour::Rgb(250, 0, 1),
+            underline_colour: Colour::Default,
+            bold: true,
+            italic: false,
+            blink: true,
+            reverse: false,
+            strike: false,
+            underline: Underline::Single,
+        },
+    ]
+}
+
+/// Is `got` what the statement demands for a colour slot?
+/// true colour: exactly the requested colour; reduced depths: one palette entry.
+/// The 16-colour ("Gray") depth has no palette form for the underline colour in SGR, the
+/// statement is silent there, so leaving the slot alone is accepted as well.
+fn colour_ok(depth: u8, requested: Option<Rgb>, underline_slot: bool, base: Colour, got: Colour) -> bool {
+    match requested {
+        None => got == base,
+        Some(c) => match depth {
+            0 => got == Colour::Rgb(c[0], c[1], c[2]),
+            1 => matches!(got, Colour::Index(_)),
+            _ => matches!(got, Colour::Index(_)) || (underline_slot && got == base),
+        },
+    }
+}
+
+fn colour_want(depth: u8, requested: Option<Rgb>, underline_slot: bool, base: Colour) -> String {
+    match requested {
+        None => format!("{:?}", base),
+        Some(c) => match depth {
+            0 => format!("Rgb({}, {}, {})", c[0], c[1], c[2]),
+            2 if underline_slot => format!("Index(_) or {:?}", base),
+            _ => "Index(_)".to_string(),
+        },
+    }
+}
+
+/// Check a face change: `ops` must be SGR only; applied to every start rendition the result
+/// must be the requested one. Returns `(slot, detail)` of the first difference.
+fn check_rendition(spec: &Spec, cfg: &Cfg, ops: &[Op]) -> Result<(), (String, String)> {
+    for start in starts() {
+        let mut r = start;
+        for op in ops {
+            match op {
+                Op::Sgr(params) => {
+                    let notes = ecma48::sgr_apply(&mut r, params);
+                    if !notes.is_empty() {
+                        return Err(("foreign-sgr-code".into(), format!("SGR parameters without a requested meaning: {:?}", notes)));
+                    }
+                }
+                other => return Err(("non-sgr-op".into(), format!("face change emitted {:?}", other))),
+            }
+        }
+        let (reset, fg, bg, ulc, want_bools, want_ul): (bool, _, _, _, [Option<bool>; 5], Option<Underline>) = match spec {
+            Spec::Face { fg, bg, flags, ul } => (
+                true,
+                *fg,
+                *bg,
+                None,
+                [
+                    Some(flags & 1 != 0),
+                    Some(flags & 2 != 0),
+                    Some(flags & 4 != 0),
+                    Some(flags & 8 != 0),
+                    Some(flags & 16 != 0),
+                ],
+                Some(ul_model(*ul)),
+            ),
+            Spec::FaceModify { reset, fg, bg, ul, ulc, bold, italic, blink, strike } => {
+                (*reset, *fg, *bg, *ulc, [*bold, *italic, *blink, None, *strike], ul.map(ul_model))
+            }
+            _ => unreachable!(),
+        };
+        let base = if reset { Rendition::default() } else { start };
+        let got_bools = [r.bold, r.italic, r.blink, r.reverse, r.strike];
+        let base_bools = [base.bold, base.italic, base.blink, base.reverse, base.strike];
+        for (i, name) in ["bold", "italic", "blink", "reverse", "strike"].iter().enumerate() {
+            let want = want_bools[i].unwrap_or(base_bools[i]);
+            if got_bools[i] != want {
+                return Err((
+                    name.to_string(),
+                    format!("{name}: requested {:?} on start {:?} -> want {want}, interpreter has {}", want_bools[i], start, got_bools[i]),
+                ));
+            }
+        }
+        let want_u = want_ul.unwrap_or(base.underline);
+        if r.underline != want_u {
+            return Err(("underline".into(), format!("underline style: want {:?}, interpreter has {:?} (start {:?})", want_u, r.underline, start)));
+        }
+        for (name, req, slot, b, g) in [
+            ("fg", fg, false, base.fg, r.fg),
+            ("bg", bg, false, base.bg, r.bg),
+            ("underline-colour", ulc, true, base.underline_colour, r.underline_colour),
+        ] {
+            if !colour_ok(cfg.depth, req, slot, b, g) {
+                return Err((
+                    name.to_string(),
+                    format!("{name}: want {}, interpreter has {:?} (start {:?})", colour_want(cfg.depth, req, slot, b), g, start),
+                ));
+            }
+        }
+    }
+    Ok(())
+}
+
+fn abs(n: i32) -> u64 {
+    (n as i64).unsigned_abs()
+}
+
+/// The operation list the command denotes, when it is a fixed list.
+fn denotation(spec: &Spec, cfg: &Cfg) -> Option<Vec<Op>> {
+    Some(match spec {
+        Spec::Char(c) => vec![Op::Print(char::from_u32(*c)?)],
+        Spec::FaceGet => vec![Op::Decrqss(b"m".to_vec())],
+        Spec::DecModeSet { enable, mode } => {
+            let code = MODES[*mode].2;
+            let bracket = cfg.kitty && *mode == ALT_SCREEN;
+            match (enable, bracket) {
+                (true, false) => vec![Op::DecSet(code)],
+                (false, false) => vec![Op::DecRst(code)],
+                // the alternate screen keeps its own keyboard level (kitty protocol): it is
+                // set after entering and dropped to 0 before leaving
+                (true, true) => vec![Op::DecSet(code), Op::KittyKeyboardSet { flags: ALT_SCREEN_KEYBOARD_LEVEL, mode: 1 }],
+                (false, true) => vec![Op::KittyKeyboardSet { flags: 0, mode: 1 }, Op::DecRst(code)],
+            }
+        }
+        Spec::DecModeGet(mode) => vec![Op::Decrqm(MODES[*mode].2)],
+        Spec::CursorGet => vec![Op::Dsr(6)],
+        Spec::CursorTo { row, col } => vec![Op::Cup { row: row + 1, col: col + 1 }],
+        Spec::CursorSave => vec![Op::Decsc],
+        Spec::CursorRestore => vec![Op::Decrc],
+        Spec::EraseLineLeft => vec![Op::El(1)],
+        Spec::EraseLineRight => vec![Op::El(0)],
+        Spec::EraseLine => vec![Op::El(2)],
+        Spec::EraseScreen => vec![Op::Ed(2)],
+        // zero characters is nothing: `CSI 0 X` would erase one
+        Spec::EraseChars(0) => vec![],
+        Spec::EraseChars(n) => vec![Op::Ech(*n)],
+        Spec::Scroll(0) => vec![],
+        Spec::Scroll(n) if *n > 0 => vec![Op::Su(abs(*n))],
+        Spec::Scroll(n) => vec![Op::Sd(abs(*n))],
+        Spec::ScrollRegion { start, end } if end > start => {
+            vec![Op::Decstbm { top: start + 1, bottom: Some(end + 1) }]
+        }
+        Spec::Reset => vec![Op::Ris],
+        Spec::Image | Spec::ImageErase(_) => vec![], // left to the image handler
+        Spec::Termcap(names) => vec![Op::XtGetTcap(names.iter().map(|n| n.as_bytes().to_vec()).collect())],
+        Spec::DeviceAttrs => vec![Op::Da1],
+        Spec::KeyboardLevel(n) => {
+            if cfg.kitty {
+                vec![Op::KittyKeyboardSet { flags: *n, mode: 1 }]
+            } else {
+                vec![]
+            }
+        }
+        Spec::Raw(d) => ecma48::interpret(d),
+        _ => return None,
+    })
+}
+
+fn expected_text(spec: &Spec, cfg: &Cfg) -> String {
+    match spec {
+        Spec::CursorMove { row, col } => {
+            let mut v = vec![];
+            if *col > 0 {
+                v.push(Op::Cuf(abs(*col)));
+            } else if *col < 0 {
+                v.push(Op::Cub(abs(*col)));
+            }
+            if *row > 0 {
+                v.push(Op::Cud(abs(*row)));
+            } else if *row < 0 {
+                v.push(Op::Cuu(abs(*row)));
+            }
+            format!("{:?} in any order", v)
+        }
+        Spec::ScrollRegion { .. } if denotation(spec, cfg).is_none() => {
+            "[] or [Decstbm { top: 1, bottom: None }] (empty region: statement silent)".into()
+        }
+        Spec::Title(t) => format!("[OscTitle {{ ps: 0 or 2, text: {:?} }}]", t),
+        Spec::Color { name, color } => format!(
+            "[OscColour {{ ps: {}, index: {:?}, spec: {} }}]",
+            match name {
+                -1 => 11,
+                -2 => 10,
+                _ => 4,
+            },
+            (*name >= 0).then_some(*name),
+            match color {
+                None => "\"?\"".to_string(),
+                Some(c) => format!("an X11 colour spec equal to #{:02x}{:02x}{:02x}", c[0], c[1], c[2]),
+            }
+        ),
+        Spec::Face { .. } | Spec::FaceModify { .. } => {
+            "SGR sequences that turn every start rendition into exactly the requested one".into()
+        }
+        _ => format!("{:?}", denotation(spec, cfg).unwrap_or_default()),
+    }
+}
+
+/// Compare parsed operations with the denotation. Err((kind, detail)).
+fn check_ops(spec: &Spec, cfg: &Cfg, ops: &[Op]) -> Result<(), (String, String)> {
+    let wrong = |detail: String| Err(("wrong-ops".to_string(), detail));
+    if let Some(want) = denotation(spec, cfg) {
+        return if ops == want.as_slice() {
+            Ok(())
+        } else {
+            wrong(format!("want {:?}, interpreter performs {:?}", want, ops))
+        };
+    }
+    match spec {
+        Spec::Face { .. } | Spec::FaceModify { .. } => {
+            check_rendition(spec, cfg, ops).map_err(|(slot, d)| (format!("wrong-rendition:{slot}"), d))
+        }
+        Spec::CursorMove { row, col } => {
+            let mut want = vec![];
+            if *col > 0 {
+                want.push(Op::Cuf(abs(*col)));
+            } else if *col < 0 {
+                want.push(Op::Cub(abs(*col)));
+            }
+            if *row > 0 {
+                want.push(Op::Cud(abs(*row)));
+            } else if *row < 0 {
+                want.push(Op::Cuu(abs(*row)));
+            }
+            // horizontal and vertical motion commute
+            let mut rev = want.clone();
+            rev.reverse();
+            if ops == want.as_slice() || ops == rev.as_slice() {
+                Ok(())
+            } else {
+                wrong(format!("want {:?} (any order), interpreter performs {:?}", want, ops))
+            }
+        }
+        Spec::ScrollRegion { .. } => {
+            // end <= start: no region is described; accept nothing or a reset of the margins
+            if ops.is_empty() || ops == [Op::Decstbm { top: 1, bottom: None }] {
+                Ok(())
+            } else {
+                wrong(format!("empty region: want nothing or a margin reset, interpreter performs {:?}", ops))
+            }
+        }
+        Spec::Title(t) => match ops {
+            [Op::OscTitle { ps: 0 | 2, text }] if text == t.as_bytes() => Ok(()),
+            _ => wrong(format!("want window title {:?}, interpreter performs {:?}", t, ops)),
+        },
+        Spec::Color { name, color } => {
+            let (want_ps, want_index) = match name {
+                -1 => (11, None),
+                -2 => (10, None),
+                n => (4, Some(*n as u64)),
+            };
+            match ops {
+                [Op::OscColour { ps, index, spec: s }] if *ps == want_ps && *index == want_index => {
+                    let ok = match color {
+                        None => s == b"?",
+                        Some(c) => ecma48::xparse_colour(s) == Some((c[0], c[1], c[2])),
+                    };
+                    if ok {
+                        Ok(())
+                    } else {
+                        wrong(format!("colour spec {:?} does not denote {:?}", String::from_utf8_lossy(s), color))
+                    }
+                }
+                _ => wrong(format!("want {}, interpreter performs {:?}", expected_text(spec, cfg), ops)),
+            }
+        }
+        _ => unreachable!("denotation covers {:?}", spec),
+    }
+}
+
+/// Encode with a fresh encoder. Err(kind, detail) on panic / error.
+fn encode_with(enc: &mut TTYEncoder, spec: &Spec, out: &mut Vec<u8>) -> Result<(), (String, String)> {
+    let cmd = spec.command();
+    match catch(|| enc.encode(&mut *out, cmd)) {
+        Err(p) => Err((p.key(), format!("encode panicked: {} ({}:{})", p.message, p.file, p.line))),
+        Ok(Err(e)) => Err(("encode-error".into(), format!("encode returned an error: {:?}", e))),
+        Ok(Ok(())) => Ok(()),
+    }
+}
+
+struct Outcome {
+    bytes: Vec<u8>,
+    ops: Vec<Op>,
+    verdict: Result<(), (String, String)>,
+}
+
+fn parse_checked(bytes: &[u8]) -> Result<Vec<Op>, (String, String)> {
+    let tokens = ecma48::parse(bytes);
+    if let Some(Token::Invalid { bytes: b, why }) = tokens.iter().find(|t| matches!(t, Token::Invalid { .. })) {
+        return Err(("malformed-output".into(), format!("{why}: {:?} in {:?}", esc(b), esc(bytes))));
+    }
+    let ops = ecma48::decode_ops(&tokens);
+    Ok(ops)
+}
+
+fn eval(spec: &Spec, cfg: &Cfg) -> Outcome {
+    let mut enc = TTYEncoder::new(cfg.caps());
+    let mut bytes = Vec::with_capacity(64);
+    if let Err(e) = encode_with(&mut enc, spec, &mut bytes) {
+        return Outcome { bytes, ops: vec![], verdict: Err(e) };
+    }
+    if let Spec::Raw(d) = spec {
+        if &bytes != d {
+            let detail = format!("raw bytes altered: {:?}", esc(&bytes));
+            return Outcome { bytes, ops: vec![], verdict: Err(("wrong-ops".into(), detail)) };
+        }
+    }
+    let ops = match parse_checked(&bytes) {
+        Ok(o) => o,
+        Err(e) => return Outcome { bytes, ops: vec![], verdict: Err(e) },
+    };
+    if !matches!(spec, Spec::Raw(_)) {
+        if let Some(o) = ops.iter().find(|o| matches!(o, Op::Other(_))) {
+            let detail = format!("unknown construct {:?} in {:?}", o, esc(&bytes));
+            return Outcome { bytes, ops, verdict: Err(("stray-sequence".into(), detail)) };
+        }
+    }
+    let verdict = check_ops(spec, cfg, &ops);
+    Outcome { bytes, ops, verdict }
+}
+
+/// Self-containedness: one encoder, two commands, one stream.
+fn eval_pair(a: &Spec, b: &Spec, cfg: &Cfg) -> Result<(), (&'static str, String, String)> {
+    // Err = (command the finding is filed under, kind, detail)
+    let blame = |s: &Spec| {
+        let name = s.name();
+        move |(kind, detail): (String, String)| (name, kind, detail)
+    };
+    let mut parts = vec![];
+    for s in [a, b] {
+        let mut enc = TTYEncoder::new(cfg.caps());
+        let mut bytes = vec![];
+        encode_with(&mut enc, s, &mut bytes).map_err(blame(s))?;
+        parts.push(parse_checked(&bytes).map_err(blame(s))?);
+    }
+    let mut enc = TTYEncoder::new(cfg.caps());
+    let mut stream = vec![];
+    encode_with(&mut enc, a, &mut stream).map_err(blame(a))?;
+    encode_with(&mut enc, b, &mut stream).map_err(blame(b))?;
+    // both commands are well formed alone, so a malformed stream is the second one's
+    // dependence on what preceded it
+    let ops = parse_checked(&stream).map_err(blame(b))?;
+    let mut want = parts[0].clone();
+    want.extend(parts[1].iter().cloned());
+    if ops == want {
+        Ok(())
+    } else {
+        let culprit = if ops.starts_with(&parts[0]) { b } else { a };
+        Err((
+            culprit.name(),
+            "not-self-contained".into(),
+            format!("stream {:?} parses to {:?}, the two commands alone give {:?}", esc(&stream), ops, want),
+        ))
+    }
+}
+
+// ---------------------------------------------------------------------------------------
+// spaces
+// ---------------------------------------------------------------------------------------
+
+const POS: [u64; 7] = [0, 1, 2, 9, 10, 99, 65535];
+const MOVES: [i32; 8] = [i32::MIN, i32::MIN + 1, -10, -1, 0, 1, 10, i32::MAX];
+const PALETTE: [i64; 7] = [0, 1, 15, 16, 231, 232, 255];
+
+fn cube(vals: &[u8]) -> Vec<Rgb> {
+    let mut v = vec![];
+    for r in vals {
+        for g in vals {
+            for b in vals {
+                v.push([*r, *g, *b]);
+            }
+        }
+    }
+    v
+}
+
+fn opt_colours(cols: &[Rgb]) -> Vec<Option<Rgb>> {
+    std::iter::once(None).chain(cols.iter().map(|c| Some(*c))).collect()
+}
+
+fn printable_strings(max_len: usize) -> Vec<String> {
+    let alphabet: Vec<char> = (0x20u8..=0x7e).map(|b| b as char).collect();
+    let mut out = vec![String::new()];
+    let mut level = vec![String::new()];
+    for _ in 0..max_len {
+        let mut next = Vec::with_capacity(level.len() * alphabet.len());
+        for s in &level {
+            for c in &alphabet {
+                let mut t = s.clone();
+                t.push(*c);
+                next.push(t);
+            }
+        }
+        out.extend(next.iter().cloned());
+        level = next;
+    }
+    out
+}
+
+/// Every command that is not a face change.
+fn plain_specs(tier: Tier) -> Vec<Spec> {
+    let mut v = vec![
+        Spec::FaceGet,
+        Spec::CursorGet,
+        Spec::CursorSave,
+        Spec::CursorRestore,
+        Spec::EraseLineLeft,
+        Spec::EraseLineRight,
+        Spec::EraseLine,
+        Spec::EraseScreen,
+        Spec::Reset,
+        Spec::Image,
+        Spec::ImageErase(false),
+        Spec::ImageErase(true),
+        Spec::DeviceAttrs,
+    ];
+    for mode in 0..MODES.len() {
+        v.push(Spec::DecModeSet { enable: true, mode });
+        v.push(Spec::DecModeSet { enable: false, mode });
+        v.push(Spec::DecModeGet(mode));
+    }
+    for a in POS {
+        v.push(Spec::EraseChars(a));
+        v.push(Spec::KeyboardLevel(a));
+        for b in POS {
+            v.push(Spec::CursorTo { row: a, col: b });
+            v.push(Spec::ScrollRegion { start: a, end: b });
+        }
+    }
+    for a in MOVES {
+        v.push(Spec::Scroll(a));
+        for b in MOVES {
+            v.push(Spec::CursorMove { row: a, col: b });
+        }
+    }
+    // characters: printable ASCII, Latin-1, BMP, astral, last scalar value, combining, wide
+    for c in (0x20u32..=0x7e).chain([0xa0, 0xe9, 0xff, 0x100, 0x301, 0x7ff, 0x800, 0x20ac, 0x4e2d, 0xd7ff, 0xe000, 0xfffd, 0xffff, 0x10000, 0x1f600, 0x10ffff]) {
+        v.push(Spec::Char(c));
+    }
+    let cols = cube(tier.pick(&[0u8, 128, 255][..], &[0u8, 1, 127, 128, 255][..]));
+    for name in [-1i64, -2].into_iter().chain(PALETTE) {
+        for color in opt_colours(&cols) {
+            v.push(Spec::Color { name, color });
+        }
+    }
+    // titles and capability names: every printable ASCII string up to the tier's length,
+    // plus non-ASCII text and multi-name requests
+    let strings = printable_strings(tier.pick(2, 3));
+    for s in &strings {
+        v.push(Spec::Title(s.clone()));
+        if !s.is_empty() {
+            // a capability name is not empty (and `DCS + q ST` cannot tell [""] from [])
+            v.push(Spec::Termcap(vec![s.clone()]));
+        }
+    }
+    for s in ["héllo wörld", "日本語", "a;b;c", "0;1", "title with spaces and ]", "\u{1f600}"] {
+        v.push(Spec::Title(s.to_string()));
+        v.push(Spec::Termcap(vec![s.to_string()]));
+    }
+    v.push(Spec::Termcap(vec![]));
+    let names = ["TN", "Co", "RGB", "a", "k;"];
+    for a in names {
+        for b in names {
+            v.push(Spec::Termcap(vec![a.to_string(), b.to_string()]));
+            for c in names {
+                v.push(Spec::Termcap(vec![a.to_string(), b.to_string(), c.to_string()]));
+            }
+        }
+    }
+    for raw in [&b""[..], b"hello", b"\x1b[2J", b"\x1b[1;2H\x1b[0m", b"\x1b]0;t\x07"] {
+        v.push(Spec::Raw(raw.to_vec()));
+    }
+    v
+}
+
+struct FaceSpace {
+    cols: Vec<Option<Rgb>>,
+}
+
+impl FaceSpace {
+    fn size(&self) -> u64 {
+        (self.cols.len() * self.cols.len() * 32 * 6) as u64
+    }
+    fn get(&self, mut i: u64) -> Spec {
+        let n = self.cols.len() as u64;
+        let ul = (i % 6) as u8;
+        i /= 6;
+        let flags = (i % 32) as u8;
+        i /= 32;
+        let bg = self.cols[(i % n) as usize];
+        i /= n;
+        Spec::Face { fg: self.cols[i as usize], bg, flags, ul }
+    }
+}
+
+struct ModifySpace {
+    cols: Vec<Option<Rgb>>,
+}
+
+const TRI: [Option<bool>; 3] = [None, Some(true), Some(false)];
+
+impl ModifySpace {
+    fn size(&self) -> u64 {
+        let n = self.cols.len() as u64;
+        2 * n * n * n * 7 * 81
+    }
+    fn get(&self, mut i: u64) -> Spec {
+        let n = self.cols.len() as u64;
+        let mut take = |r: u64| {
+            let v = i % r;
+            i /= r;
+            v
+        };
+        let strike = TRI[take(3) as usize];
+        let blink = TRI[take(3) as usize];
+        let italic = TRI[take(3) as usize];
+        let bold = TRI[take(3) as usize];
+        let ul = match take(7) {
+            0 => None,
+            k => Some(k as u8 - 1),
+        };
+        let reset = take(2) == 1;
+        let ulc = self.cols[take(n) as usize];
+        let bg = self.cols[take(n) as usize];
+        let fg = self.cols[take(n) as usize];
+        Spec::FaceModify { reset, fg, bg, ul, ulc, bold, italic, blink, strike }
+    }
+}
+
+/// ~40 representative commands for the ordered-pair check.
+fn representatives() -> Vec<Spec> {
+    let m = |reset, fg, bg, ul, ulc, bold, italic, blink, strike| Spec::FaceModify { reset, fg, bg, ul, ulc, bold, italic, blink, strike };
+    vec![
+        Spec::Char('a' as u32),
+        Spec::Char(0x20ac),
+        Spec::Char('[' as u32),
+        Spec::Char('m' as u32),
+        Spec::Char('0' as u32),
+        Spec::Char(';' as u32),
+        Spec::Face { fg: None, bg: None, flags: 0, ul: 0 },
+        Spec::Face { fg: Some([1, 128, 255]), bg: Some([0, 0, 0]), flags: 31, ul: 3 },
+        Spec::Face { fg: None, bg: Some([255, 255, 255]), flags: 1, ul: 1 },
+        m(false, None, None, None, None, None, None, None, None),
+        m(true, None, None, None, None, None, None, None, None),
+        m(false, Some([10, 20, 30]), Some([40, 50, 60]), Some(2), Some([70, 80, 90]), Some(true), Some(false), Some(true), Some(false)),
+        m(false, None, None, Some(0), None, Some(false), None, None, Some(true)),
+        Spec::FaceGet,
+        Spec::DecModeSet { enable: true, mode: ALT_SCREEN },
+        Spec::DecModeSet { enable: false, mode: ALT_SCREEN },
+        Spec::DecModeSet { enable: true, mode: 0 },
+        Spec::DecModeSet { enable: false, mode: 8 },
+        Spec::DecModeGet(7),
+        Spec::CursorGet,
+        Spec::CursorTo { row: 0, col: 0 },
+        Spec::CursorTo { row: 9, col: 65535 },
+        Spec::CursorMove { row: 0, col: 0 },
+        Spec::CursorMove { row: -1, col: 10 },
+        Spec::CursorMove { row: i32::MAX, col: i32::MIN + 1 },
+        Spec::CursorSave,
+        Spec::CursorRestore,
+        Spec::EraseLineLeft,
+        Spec::EraseLineRight,
+        Spec::EraseLine,
+        Spec::EraseScreen,
+        Spec::EraseChars(10),
+        Spec::Scroll(-2),
+        Spec::Scroll(1),
+        Spec::ScrollRegion { start: 1, end: 9 },
+        Spec::ScrollRegion { start: 0, end: 0 },
+        Spec::Reset,
+        Spec::Image,
+        Spec::Termcap(vec!["TN".into(), "RGB".into()]),
+        Spec::Color { name: -1, color: None },
+        Spec::Color { name: 15, color: Some([1, 2, 3]) },
+        Spec::Title("a title; with ] and [".into()),
+        Spec::Title(String::new()),
+        Spec::DeviceAttrs,
+        Spec::KeyboardLevel(5),
+    ]
+}
+
+fn op_kind(op: &Op) -> u32 {
+    match op {
+        Op::Print(_) => 0,
+        Op::C0(_) => 1,
+        Op::Cup { .. } => 2,
+        Op::Cuu(_) => 3,
+        Op::Cud(_) => 4,
+        Op::Cuf(_) => 5,
+        Op::Cub(_) => 6,
+        Op::Ed(_) => 7,
+        Op::El(_) => 8,
+        Op::Ech(_) => 9,
+        Op::Su(_) => 10,
+        Op::Sd(_) => 11,
+        Op::Decstbm { .. } => 12,
+        Op::DecSet(_) => 13,
+        Op::DecRst(_) => 14,
+        Op::Decrqm(_) => 15,
+        Op::Dsr(_) => 16,
+        Op::Decsc => 17,
+        Op::Decrc => 18,
+        Op::Ris => 19,
+        Op::Sgr(_) => 20,
+        Op::Decrqss(_) => 21,
+        Op::XtGetTcap(_) => 22,
+        Op::OscTitle { .. } => 23,
+        Op::OscColour { .. } => 24,
+        Op::Da1 => 25,
+        Op::KittyKeyboardSet { .. } => 26,
+        Op::Other(_) => 27,
+    }
+}
+
+#[derive(Default)]
+struct Counters {
+    evals: AtomicU64,
+    nontrivial: AtomicU64,
+    empty_outputs: AtomicU64,
+    bytes: AtomicU64,
+    op_kinds: AtomicU64,
+}
+
+/// Per-chunk tallies, added to the shared counters once per chunk (no cache-line ping-pong).
+#[derive(Default)]
+struct Local {
+    evals: u64,
+    nontrivial: u64,
+    empty_outputs: u64,
+    bytes: u64,
+    op_kinds: u64,
+}
+
+impl Local {
+    fn flush(self, c: &Counters) {
+        c.evals.fetch_add(self.evals, Ordering::Relaxed);
+        c.nontrivial.fetch_add(self.nontrivial, Ordering::Relaxed);
+        c.empty_outputs.fetch_add(self.empty_outputs, Ordering::Relaxed);
+        c.bytes.fetch_add(self.bytes, Ordering::Relaxed);
+        c.op_kinds.fetch_or(self.op_kinds, Ordering::Relaxed);
+    }
+}
+
+fn run_case(spec: &Spec, cfg: &Cfg, index: u64, viol: &Violations, samples: &Samples, c: &mut Local) {
+    let out = eval(spec, cfg);
+    c.evals += 1;
+    if spec.parametric() {
+        c.nontrivial += 1;
+    }
+    if out.bytes.is_empty() {
+        c.empty_outputs += 1;
+    }
+    c.bytes += out.bytes.len() as u64;
+    for op in &out.ops {
+        c.op_kinds |= 1 << op_kind(op);
+    }
+    samples.offer(index, || {
+        json!({"cmd": spec, "cfg": cfg, "bytes": esc(&out.bytes), "ops": format!("{:?}", out.ops)})
+    });
+    if let Err((kind, detail)) = &out.verdict {
+        viol.add(
+            format!("{}:{}", spec.name(), kind),
+            format!("{:?} under {:?} emitted {:?}: {}", spec.command(), cfg, esc(&out.bytes), detail),
+            json!({"kind": "single", "cmd": spec, "cfg": cfg}),
+        );
+    }
+}
+
+/// Evaluate cases `0..total` (case i = `get(i / #cfgs)` under configuration `i % #cfgs`) in parallel chunks.
+fn sweep<G: Fn(u64) -> Spec + Sync>(
+    ctx: &Ctx,
+    total: u64,
+    base: u64,
+    cfgs: &[Cfg],
+    get: G,
+    viol: &Violations,
+    samples: &Samples,
+    c: &Counters,
+) {
+    let chunk = 1u64 << 13;
+    (0..total.div_ceil(chunk)).into_par_iter().for_each(|k| {
+        if ctx.over_cap() {
+            return;
+        }
+        let mut local = Local::default();
+        for i in k * chunk..((k + 1) * chunk).min(total) {
+            let spec = get(i / cfgs.len() as u64);
+            run_case(&spec, &cfgs[(i % cfgs.len() as u64) as usize], base + i, viol, samples, &mut local);
+        }
+        local.flush(c);
+    });
+}
+
+pub fn run(ctx: &Ctx) -> Result<Report, String> {
+    let viol = Violations::new();
+    let samples = Samples::new(ctx.seed);
+    let c = Counters::default();
+    let cfgs = Cfg::all();
+    let mut capped = false;
+
+    // 1. every command that is not a face change
+    let plain = plain_specs(ctx.tier);
+    let plain_total = (plain.len() * cfgs.len()) as u64;
+    sweep(ctx, plain_total, 0, &cfgs, |i| plain[i as usize].clone(), &viol, &samples, &c);
+
+    if std::env::var_os("SNT_TIMING").is_some() { eprintln!("plain done {:.2}", ctx.elapsed()); }
+    // 2. faces
+    let face_cols = cube(ctx.tier.pick(&[0u8, 128, 255][..], &[0u8, 1, 127, 128, 255][..]));
+    let faces = FaceSpace { cols: opt_colours(&face_cols) };
+    let face_total = faces.size() * cfgs.len() as u64;
+    sweep(ctx, face_total, plain_total, &cfgs, |i| faces.get(i), &viol, &samples, &c);
+    capped |= ctx.over_cap();
+
+    if std::env::var_os("SNT_TIMING").is_some() { eprintln!("faces done {:.2}", ctx.elapsed()); }
+    // 3. face modifications: every field x {None, each value}; colours from a 3-colour set under
+    //    all 12 configurations, and (thorough) from the 3^3 cube under the three colour depths
+    //    (kitty_keyboard / glyphs cannot reach the SGR code path; they are covered by the first sweep)
+    let mod_cols: Vec<Rgb> = vec![[0, 0, 0], [1, 128, 255], [255, 255, 255]];
+    let mods = ModifySpace { cols: opt_colours(&mod_cols) };
+    let mod_total = mods.size() * cfgs.len() as u64;
+    sweep(ctx, mod_total, plain_total + face_total, &cfgs, |i| mods.get(i), &viol, &samples, &c);
+    let wide_cols: Vec<Rgb> = cube(&[0, 128, 255]);
+    let wide_mods = ModifySpace { cols: opt_colours(&wide_cols) };
+    let depth_cfgs: Vec<Cfg> = (0..3).map(|depth| Cfg { depth, kitty: false, glyphs: false }).collect();
+    let mut wide_total = 0;
+    if ctx.tier == Tier::Thorough {
+        wide_total = wide_mods.size() * depth_cfgs.len() as u64;
+        sweep(
+            ctx,
+            wide_total,
+            plain_total + face_total + mod_total,
+            &depth_cfgs,
+            |i| wide_mods.get(i),
+            &viol,
+            &samples,
+            &c,
+        );
+    }
+    capped |= ctx.over_cap();
+
+    if std::env::var_os("SNT_TIMING").is_some() { eprintln!("mods done {:.2}", ctx.elapsed()); }
+    // 4. ordered pairs in one stream
+    let reps = representatives();
+    let pair_evals = AtomicU64::new(0);
+    let n = reps.len();
+    (0..n * n * cfgs.len()).into_par_iter().for_each(|i| {
+        let cfg = &cfgs[i % cfgs.len()];
+        let a = &reps[i / cfgs.len() / n];
+        let b = &reps[i / cfgs.len() % n];
+        pair_evals.fetch_add(1, Ordering::Relaxed);
+        if let Err((culprit, kind, detail)) = eval_pair(a, b, cfg) {
+            viol.add(
+                format!("pair:{}:{}", culprit, kind),
+                format!("{:?} then {:?} under {:?}: {}", a.command(), b.command(), cfg, detail),
+                json!({"kind": "pair", "a": a, "b": b, "cfg": cfg}),
+            );
+        }
+    });
+    // the representatives themselves go through the single-command oracle as well
+    let mut local = Local::default();
+    for (i, s) in reps.iter().enumerate() {
+        for cfg in &cfgs {
+            run_case(s, cfg, u64::MAX - i as u64, &viol, &samples, &mut local);
+        }
+    }
+    local.flush(&c);
+
+    let evals = c.evals.load(Ordering::Relaxed) + pair_evals.load(Ordering::Relaxed);
+    let mut r = Report::new("exploration");
+    r.set("evaluations", evals)
+        .set("distinct_nontrivial", c.nontrivial.load(Ordering::Relaxed))
+        .set(
+            "rule",
+            "one case = (command value, colour depth, kitty_keyboard, glyphs), all distinct by construction \
+             (lattice points are enumerated once); non-trivial = the command carries a parameter whose value \
+             must be found in the parsed operations (parameterless commands and image commands are trivial)",
+        )
+        .set("samples", samples.into_vec())
+        .set("exhaustive", !capped)
+        .set("capped", capped)
+        .set("configurations", cfgs.len())
+        .set("space_plain_commands", plain.len())
+        .set("space_faces", faces.size())
+        .set("space_face_modifications", mods.size())
+        .set("space_face_modifications_wide_lattice_x_3_depths", wide_total)
+        .set("space_ordered_pairs", (n * n) as u64)
+        .set("pair_streams", pair_evals.load(Ordering::Relaxed))
+        .set("representatives", n)
+        .set("empty_outputs", c.empty_outputs.load(Ordering::Relaxed))
+        .set("bytes_parsed", c.bytes.load(Ordering::Relaxed))
+        .set("distinct_operation_kinds_seen", c.op_kinds.load(Ordering::Relaxed).count_ones())
+        .set("face_colour_lattice", face_cols.len())
+        .set("modify_colour_lattice", mod_cols.len())
+        .set("raw_violations", viol.raw_count());
+    r.assume("interpreter = model::ecma48 (ECMA-48 grammar, VT500 parser diagram, xterm ctlseqs, kitty keyboard protocol); parameters are not clamped");
+    r.assume("SGR 21 is double underline and SGR 22 ends bold, as ECMA-48 and xterm define them");
+    r.assume("positions/counts/indices come from {0,1,2,9,10,99,65535}; moves and scrolls from {MIN,MIN+1,-10,-1,0,1,10,MAX}; colours are opaque");
+    r.assume("titles and capability names contain no control characters");
+    r.assume("at the 16-colour (Gray) depth an underline colour may be dropped: SGR has no 16-colour form for it and the statement is silent");
+    r.assume("ScrollRegion with end <= start describes no region: nothing or a margin reset is accepted");
+    r.assume("TerminalCommand is non_exhaustive: the 28 variants of this tree are listed by hand");
+    r.violations = viol.into_vec();
+    Ok(r)
+}
+
+pub fn replay(w: &Value) -> Result<(bool, String), String> {
+    let cfg: Cfg = serde_json::from_value(w["cfg"].clone()).map_err(|e| format!("cfg: {e}"))?;
+    match w["kind"].as_str() {
+        Some("single") => {
+            let spec: Spec = serde_json::from_value(w["cmd"].clone()).map_err(|e| format!("cmd: {e}"))?;
+            let out = eval(&spec, &cfg);
+            let head = format!(
+                "command  {:?}\nconfig   {:?}\nbytes    {:?}\nexpected {}\nobserved {:?}",
+                spec.command(),
+                cfg,
+                esc(&out.bytes),
+                expected_text(&spec, &cfg),
+                out.ops
+            );
+            Ok(match out.verdict {
+                Ok(()) => (false, format!("{head}\nagrees")),
+                Err((kind, detail)) => (true, format!("{head}\n[{kind}] {detail}")),
+            })
+        }
+        Some("pair") => {
+            let a: Spec = serde_json::from_value(w["a"].clone()).map_err(|e| format!("a: {e}"))?;
+            let b: Spec = serde_json::from_value(w["b"].clone()).map_err(|e| format!("b: {e}"))?;
+            let head = format!("first    {:?}\nsecond   {:?}\nconfig   {:?}", a.command(), b.command(), cfg);
+            Ok(match eval_pair(&a, &b, &cfg) {
+                Ok(()) => (false, format!("{head}\nstream parses to the concatenation of both operation lists")),
+                Err((culprit, kind, detail)) => (true, format!("{head}\n[{culprit}: {kind}] {detail}")),
+            })
+        }
+        _ => Err("witness without kind".into()),
+    }
 }
